@@ -80,6 +80,10 @@ pub fn gen_case(r: &mut Rng, out: &mut String) {
     // --- a value from a short history
     writeln!(out, "new b0").unwrap();
     writeln!(out, "new b5").unwrap();
+    if r.chance(1, 6) {
+        // a value of the shared catalogue (gen/zoo.rs)
+        super::zoo::zoo_build(r, out, "b0");
+    }
     if r.chance(1, 8) {
         // a completely full chunk (65536 values: its cardinality field is 0xFFFF), or one value short of it
         let base = (key(r, nkeys) as u64) << 16;
